@@ -345,6 +345,9 @@ def _mk(n, d):
 # integer-valued terms that differ by a fractional constant (the +-1e-12 tolerances of the HCM code) are
 # rewritten to pure integer comparisons, so that the solver works in linear integer arithmetic only.
 
+_INT_CMP_CACHE = {}
+
+
 def _to_int_term(t):
     """Real-sorted integer-valued term -> Int-sorted term, or None"""
     if z3.is_int_value(t):
@@ -643,9 +646,16 @@ class SymReal:
                 zero = z3.Or(a == 0, b == 0)
                 return SymBool(z3.simplify(op.sign(pos, neg, zero)))
             if _ENGINE[0] is not None and getattr(_ENGINE[0], "int_mode", False):
-                r = _int_compare(op, self._e - oe)
-                if r is not None:
-                    return SymBool(z3.simplify(r))
+                # the same comparisons recur in every re-execution: memoise on the (hash-consed) operand terms
+                key = (id(op), self._e.get_id(), oe.get_id())
+                hit = _INT_CMP_CACHE.get(key)
+                if hit is None:
+                    r = _int_compare(op, self._e - oe)
+                    if len(_INT_CMP_CACHE) > 300000:
+                        _INT_CMP_CACHE.clear()
+                    hit = _INT_CMP_CACHE[key] = (None if r is None else z3.simplify(r), self._e, oe)
+                if hit[0] is not None:
+                    return SymBool(hit[0])
             return SymBool(z3.simplify(op.f(self._e, oe)))
         diff = self._addsub(o, -1, False)
         n, d = diff._nd()
@@ -680,7 +690,16 @@ class SymReal:
         raise TypeError("concretisation of a symbolic real requested (__float__)")
 
     def __int__(self):
-        raise TypeError("concretisation of a symbolic real requested (__int__)")
+        # truncation towards zero decided by forks (numpy's astype(intp) on a computed class number); bounded search
+        if self >= 0:
+            for k in range(64):
+                if self < k + 1:
+                    return k
+        else:
+            for k in range(64):
+                if self > -(k + 1):
+                    return -k
+        raise Unsupported("int() of a symbolic real beyond +-64")
 
     def __index__(self):
         raise TypeError("concretisation of a symbolic real requested (__index__)")
